@@ -1103,3 +1103,155 @@ def _ini_remove_section(I, args, kwargs):
         del parser._sections[section]
         del parser._proxies[section]
     return existed
+
+
+# ---------------------------------------------------------------------------------------------------
+# buffers for readinto()-style hashing loops, and stat() of symbolic files
+
+@engine_type
+class SymBufView(object):
+    """a slice [lo, hi) of a concrete-size buffer whose content psx tracks as 'the bytes of file interval ...'"""
+
+    def __init__(self, base, lo, hi):
+        self.base, self.lo, self.hi = base, lo, hi
+
+    def psx_symbolic(self):
+        return True
+
+    def psx_truth(self):
+        return mkbool(self.hi > self.lo)
+
+
+_BUF_WRITES = {}       # id(base buffer) -> (buffer offset, bytes written, file id, file position)
+
+
+def _as_view(I, b):
+    if isinstance(b, SymBufView):
+        return b
+    if isinstance(b, (memoryview, bytearray)):
+        return SymBufView(b, 0, len(b))
+    I.unsupported("buffer of type %s" % type(b).__name__)
+
+
+def _symfile_readinto(self, b):
+    from .interp import current
+    I = current()
+    v = _as_view(I, b)
+    rest = self.size - self.pos
+    want = v.hi - v.lo
+    k = z3.If(rest < want, rest, want) if not (isinstance(rest, int) and isinstance(want, int)) else min(rest, want)
+    k = z3.If(k < 0, 0, k) if not isinstance(k, int) else max(k, 0)
+    _BUF_WRITES[id(v.base)] = (v.lo, k, self.fid, self.pos, v.base)
+    self.pos = self.pos + k
+    return models.mkint(k) if not isinstance(k, int) else k
+
+
+def _symfile_fileno(self):
+    from .interp import current
+    I = current()
+    fds = I.options.setdefault("symfds", {})
+    fd = -4000 - len(fds)
+    fds[fd] = self
+    return fd
+
+
+SymFile.readinto = _symfile_readinto
+SymFile.fileno = _symfile_fileno
+SymFile.tell = lambda self: models.mkint(self.pos) if not isinstance(self.pos, int) else self.pos
+
+_orig_hash_update = SymHash.update
+
+
+def _hash_update(self, b):
+    from .interp import current
+    I = current()
+    if isinstance(b, (SymBufView, memoryview, bytearray)) and (isinstance(b, SymBufView) or id(b) in _BUF_WRITES):
+        v = _as_view(I, b)
+        w = _BUF_WRITES.get(id(v.base))
+        if w is None:
+            I.unsupported("hashing a buffer that was never filled from a symbolic file")
+        wlo, k, fid, pos, _ = w
+        same_start = models.simp(Eq(v.lo, wlo)) if not (isinstance(v.lo, int) and isinstance(wlo, int)) else (v.lo == wlo)
+        if same_start is not True:
+            if not I.decide(same_start):
+                I.unsupported("hashing a buffer slice that does not start where the last read wrote")
+        n = v.hi - v.lo
+        fresh = z3.If(n < k, n, k) if not (isinstance(n, int) and isinstance(k, int)) else min(n, k)
+        self.parts.append((fid, pos, pos + fresh))
+        # bytes beyond what the last read wrote are stale buffer content: not bytes of the file at that position
+        self.parts.append(("stale-buffer-content", 0, n - fresh))
+        return None
+    return _orig_hash_update(self, b)
+
+
+SymHash.update = _hash_update
+
+
+def _digest_eq(self, other):
+    from .interp import current
+    I = current()
+    if not isinstance(other, DigestText):
+        if isinstance(other, (str, SymStr)):
+            I.unsupported("comparison of a symbolic digest with text")
+        return False
+    if self.name != other.name or self.case != other.case:
+        return False
+    a, b = self.parts, other.parts
+    if len(a) == len(b) and all(x[0] == y[0] and x[1] is y[1] and x[2] is y[2] for x, y in zip(a, b)):
+        return True
+    if len(b) != 1 and len(a) == 1:
+        a, b = b, a
+    if len(b) != 1:
+        I.unsupported("comparison of two multi-part symbolic digests")
+    (fid, lo, hi) = b[0]
+    terms = []
+    cur = lo
+    for (f2, l2, h2) in a:
+        empty = (h2 <= l2)
+        if f2 != fid:
+            terms.append(empty)          # bytes that are not from this file must not be there at all
+            continue
+        terms.append(Or(empty, And(l2 == cur, h2 <= hi, h2 > l2)))
+        cur = z3.If(empty, cur, h2) if not isinstance(empty, bool) else (cur if empty else h2)
+    terms.append(cur == hi)
+    return mkbool(And(*terms))
+
+
+DigestText.psx_eq = _digest_eq
+
+
+class _SymStat(object):
+    def __init__(self, size):
+        self.st_size = size
+
+
+@func_model(os.fstat)
+def _fstat(I, args, kwargs):
+    f = (I.options.get("symfds") or {}).get(args[0])
+    if f is not None:
+        return _SymStat(models.mkint(f.size))
+    return NotImplemented
+
+
+@func_model(os.stat)
+def _stat(I, args, kwargs):
+    files = I.options.get("symfiles") or {}
+    if args and isinstance(args[0], str) and args[0] in files:
+        return _SymStat(models.mkint(files[args[0]]))
+    return NotImplemented
+
+
+@func_model(os.path.getsize)
+def _getsize(I, args, kwargs):
+    files = I.options.get("symfiles") or {}
+    if args and isinstance(args[0], str) and args[0] in files:
+        return models.mkint(files[args[0]])
+    return NotImplemented
+
+
+@func_model(range)
+def _range(I, args, kwargs):
+    if any(isinstance(a, SYM) for a in args):
+        # a symbolic bound with few possible values (e.g. a chunk count): one branch per value
+        args = [models.concretize(I, a, limit=64) if isinstance(a, SYM) else a for a in args]
+    return I.native(range, *args)
